@@ -708,9 +708,14 @@ func (g *gen) mapKey(ref *TypeRef, cands []*TypeDecl) {
 // variables; parameters and results avoid the array, whose zero value is an instance)
 var wraps = []string{"[]", "map[string]", "chan ", "[2]", "..."}
 
+var docPrefixes = []string{"//", "//  ", "//\t", "// \t "}
+
 func (g *gen) annotate(td *TypeDecl) {
 	if g.chance("plainType", 12) {
 		return // no annotation at all
+	}
+	if g.chance("docPrefix", 15) {
+		td.DocPrefix = docPrefixes[g.pick("docPrefixIdx", len(docPrefixes))]
 	}
 	if g.has("imm") && g.chance("immutable", 65) {
 		td.Immutable = true
@@ -898,6 +903,9 @@ func (g *gen) genFunc(pkg *Pkg, recvType *TypeDecl, name string, own []*TypeDecl
 		fd.Recv = &Var{Name: "r", Ref: &TypeRef{Type: recvType, Ptr: ptr}, ID: fd.ID}
 		sc.vars = append(sc.vars, fd.Recv)
 		sc.recv = fd.Recv
+	}
+	if g.chance("fnDocPrefix", 15) {
+		fd.DocPrefix = docPrefixes[g.pick("docPrefixIdx", len(docPrefixes))]
 	}
 	if !g.inXTest && g.has("tonl") && g.chance("fnTestOnly", 35) {
 		fd.TestOnly = true
